@@ -1,7 +1,7 @@
 (** C14 - versions advance one at a time and a stale commit is refused.
     Property theorems only; each closed by [exact] of a lemma from Proofs/. *)
 From Rocfl Require Import Base.Bytes Model.VersionNum Proofs.VersionNumFacts.
-From Rocfl Require Import Model.MultiClient Model.KnownC14 Proofs.MultiClientFacts.
+From Rocfl Require Import Model.MultiClient Proofs.MultiClientFacts.
 Open Scope N_scope.
 
 (** [vnumok v]: the number is a u32 >= 1 (every number the code can hold); the WIDTH is
@@ -69,75 +69,77 @@ Example C14_nonvacuous :
 Proof. repeat split; vm_compute; reflexivity. Qed.
 
 (** * Second half: clients that share a storage root but use different staging roots
-    (Model/MultiClient.v).  An interleaving is any list of (client, operation); states are
-    quantified through the invariant [mc_inv] of the states reachable outside the known
-    class recreated-lineage ([C14_reachable_invariant]); no restriction on padding widths. *)
+    (Model/MultiClient.v).  An interleaving is any list of (client, operation); a commit carries
+    the metadata token of the new version (created/message/user).  No known class is left.
+    Two groups of theorems:
+    - for ALL interleavings and any metadata: invariant [mc_wf];
+    - for all interleavings in which no commit repeats the metadata of a version known to
+      anyone ([run_fresh]; rocfl stamps [created] with Local::now() unless the caller passes an
+      explicit time): invariant [mc_inv], which knows lineages.  When metadata IS repeated on a
+      re-created lineage with the same states, the two histories cannot be told apart and the
+      commit is accepted - harmlessly: [C14_commit_keeps_history] still holds. *)
 
-Theorem C14_reachable_invariant : forall dbg es,
-  run_clean dbg mc_init es = true -> mc_inv (run dbg mc_init es).
-Proof. exact reachable_inv. Qed.
-Print Assumptions C14_reachable_invariant.
+Theorem C14_reachable_wellformed : forall dbg es, mc_wf (run dbg mc_init es).
+Proof. exact reachable_wf. Qed.
+Print Assumptions C14_reachable_wellformed.
 
-Theorem C14_invariant_preserved : forall dbg es st,
-  mc_inv st -> run_clean dbg st es = true -> mc_inv (run dbg st es).
-Proof. exact run_inv. Qed.
-Print Assumptions C14_invariant_preserved.
+Theorem C14_wellformed_preserved : forall dbg es st, mc_wf st -> mc_wf (run dbg st es).
+Proof. exact run_wf. Qed.
+Print Assumptions C14_wellformed_preserved.
 
 (** every reachable object: head number = number of versions (none skipped, none repeated),
     within what its padding width can express *)
 Theorem C14_reachable_heads : forall dbg es id o,
-  run_clean dbg mc_init es = true -> mget (run dbg mc_init es) id = Some o ->
+  mget (run dbg mc_init es) id = Some o ->
   vn_number (o_head o) = N.of_nat (List.length (o_versions o)) /\ 1 <= vn_number (o_head o) /\
   vfits (o_head o) = true.
 Proof. exact reachable_heads. Qed.
 Print Assumptions C14_reachable_heads.
 
-(** a successful commit of a new version changes the main repository at that id only and
-    appends exactly one version: number = old head + 1, same width, state = the client's staged
-    head state, all earlier versions unchanged; only that client's staged copy is consumed *)
-Theorem C14_commit_appends_exactly_next : forall dbg st c id s st',
-  mc_inv st -> sget st c id = Some s -> vn_number (s_head s) <> 1 ->
-  c14_recreated_lineage st c id = false ->
-  step dbg st c (Commit id) = (st', Ok tt) ->
+(** ANY accepted commit of a new version: the main repository changes at that id only; head =
+    old head + 1 with the same padding width and configuration; exactly one version - the
+    client's staged state under the commit's metadata - is added at the end; every earlier
+    version keeps its metadata and its state ([base_same]): none overwritten, skipped or merged *)
+Theorem C14_commit_keeps_history : forall dbg st c id m s st',
+  mc_wf st -> sget st c id = Some s -> vn_number (s_head s) <> 1 ->
+  step dbg st c (Commit id m) = (st', Ok tt) ->
   exists o, mget st id = Some o /\
     mget st' id = Some (mkObj (o_lineage o) (mkV (vn_number (o_head o) + 1) (vn_width (o_head o)))
-                              (o_versions o ++ [s_state s])) /\
+                              (s_versions s ++ [(m, s_state s)]) (o_cfg o)) /\
+    List.length (s_versions s) = List.length (o_versions o) /\
+    base_same (o_versions o) (s_versions s) = true /\
     (forall id', id' <> id -> mget st' id' = mget st id') /\
     sget st' c id = None /\
     (forall c' id', (c', id') <> (c, id) -> sget st' c' id' = sget st c' id') /\
     mc_next st' = mc_next st.
-Proof. exact commit_appends_exactly_next. Qed.
-Print Assumptions C14_commit_appends_exactly_next.
-
-(** outside the classifier every successful write_new_version was cloned from exactly the
-    object now in the main repository, so the new version's state is the previous head's
-    state with the staged changes applied *)
-Theorem C14_lineage_known_exact : forall dbg st c id s o st',
-  mc_inv st -> sget st c id = Some s -> vn_number (s_head s) <> 1 -> mget st id = Some o ->
-  c14_recreated_lineage st c id = false -> step dbg st c (Commit id) = (st', Ok tt) ->
-  s_base s = Some (o_lineage o) /\ s_versions s = o_versions o /\
-  s_state s = apply_edits (s_edits s) (last_state (o_versions o)).
-Proof. exact lineage_known_exact. Qed.
-Print Assumptions C14_lineage_known_exact.
-
-(** along any run without the known classes the version list of an object lineage only grows
-    at its end; an object found under another lineage was created after the run began *)
-Theorem C14_versions_append_only : forall dbg es st id o o1,
-  mc_inv st -> run_clean dbg st es = true ->
-  mget st id = Some o -> mget (run dbg st es) id = Some o1 ->
-  (o_lineage o1 = o_lineage o -> extends_obj o o1) /\
-  (o_lineage o1 <> o_lineage o -> mc_next st <= o_lineage o1).
-Proof. exact versions_append_only. Qed.
-Print Assumptions C14_versions_append_only.
+Proof. exact commit_keeps_history. Qed.
+Print Assumptions C14_commit_keeps_history.
 
 (** the main head is not the staged head - 1 (someone else committed first, or the object is
     gone): Err, and the whole system state - repository and staged changes - is unchanged *)
-Theorem C14_stale_commit_refused_unchanged : forall dbg st c id s,
+Theorem C14_stale_commit_refused_unchanged : forall dbg st c id m s,
   sget st c id = Some s -> vnumok (s_head s) = true -> vn_number (s_head s) <> 1 ->
   (forall o, mget st id = Some o -> vn_number (o_head o) + 1 <> vn_number (s_head s)) ->
-  step dbg st c (Commit id) = (st, Err).
+  step dbg st c (Commit id m) = (st, Err).
 Proof. exact stale_commit_refused_unchanged. Qed.
 Print Assumptions C14_stale_commit_refused_unchanged.
+
+(** some version of the object is not (metadata and state) the staged copy's version of that
+    number: Err, nothing changes (fix e1679ed) *)
+Theorem C14_foreign_base_refused : forall dbg st c id m s o,
+  sget st c id = Some s -> vnumok (s_head s) = true -> vn_number (s_head s) <> 1 ->
+  mget st id = Some o -> base_same (o_versions o) (s_versions s ++ [(m, s_state s)]) = false ->
+  step dbg st c (Commit id m) = (st, Err).
+Proof. exact foreign_base_refused. Qed.
+Print Assumptions C14_foreign_base_refused.
+
+(** another padding width, digest algorithm or content directory: Err, nothing changes (fix 5c18ef1) *)
+Theorem C14_foreign_config_refused : forall dbg st c id m s o,
+  sget st c id = Some s -> vnumok (s_head s) = true -> vn_number (s_head s) <> 1 ->
+  mget st id = Some o -> (vn_width (o_head o) <> vn_width (s_head s) \/ o_cfg o <> s_cfg s) ->
+  step dbg st c (Commit id m) = (st, Err).
+Proof. exact foreign_config_refused. Qed.
+Print Assumptions C14_foreign_config_refused.
 
 (** every refused or aborted operation leaves the repository and all staging roots unchanged *)
 Theorem C14_refused_unchanged : forall dbg st c o,
@@ -147,67 +149,131 @@ Print Assumptions C14_refused_unchanged.
 
 Theorem C14_new_object_refused_if_exists : forall dbg st c id o,
   mget st id = Some o ->
-  (forall w, step dbg st c (New id w) = (st, Err)) /\
-  (forall s, sget st c id = Some s -> vn_number (s_head s) = 1 -> step dbg st c (Commit id) = (st, Err)).
+  (forall w k, step dbg st c (New id w k) = (st, Err)) /\
+  (forall m s, sget st c id = Some s -> vn_number (s_head s) = 1 -> step dbg st c (Commit id m) = (st, Err)).
 Proof. exact new_object_refused_if_exists. Qed.
 Print Assumptions C14_new_object_refused_if_exists.
-
-(** after a successful commit of client [a], the commit of any other client [c] whose staged
-    copy existed before fails - whatever happens in between - unless [c] resets, re-stages
-    after a commit of its own, or the object is purged *)
-Theorem C14_no_silent_merge : forall dbg st a c id sc st1 es,
-  mc_inv st -> a <> c -> sget st c id = Some sc ->
-  step_clean st a (Commit id) = true -> step dbg st a (Commit id) = (st1, Ok tt) ->
-  run_clean dbg st1 es = true -> forallb (ev_keeps c id) es = true ->
-  c14_recreated_lineage (run dbg st1 es) c id = false ->
-  step dbg (run dbg st1 es) c (Commit id) = (run dbg st1 es, Err).
-Proof. exact no_silent_merge. Qed.
-Print Assumptions C14_no_silent_merge.
 
 (** at the largest number the padding width can express (u32::MAX for widths 0 and above 10)
     a further version cannot even be staged *)
 Theorem C14_stage_refused_at_width_max : forall dbg st c id o e,
-  mc_inv st -> sget st c id = None -> mget st id = Some o ->
+  mc_wf st -> sget st c id = None -> mget st id = Some o ->
   max_for_width (vn_width (o_head o)) < vn_number (o_head o) + 1 ->
   step dbg st c (Stage id e) = (st, Err).
 Proof. exact stage_refused_at_width_max. Qed.
 Print Assumptions C14_stage_refused_at_width_max.
 
 (** no operation panics in a reachable state, whatever the padding widths *)
-Theorem C14_step_never_panics : forall dbg st c o, mc_inv st -> snd (step dbg st c o) <> Panic.
+Theorem C14_step_never_panics : forall dbg st c o, mc_wf st -> snd (step dbg st c o) <> Panic.
 Proof. exact step_never_panics. Qed.
 Print Assumptions C14_step_never_panics.
 
-(** The excluded class is a genuine defect of the modelled code (known finding recreated-lineage):
-    a run, clean up to its last step, whose final commit is in the class, succeeds and replaces
-    the committed versions of the object in the main repository. *)
-Theorem C14_known_recreated_lineage_refuted :
-  exists es c id,
-    run_clean true mc_init es = true /\
-    c14_recreated_lineage (run true mc_init es) c id = true /\
-    snd (step true (run true mc_init es) c (Commit id)) = Ok tt /\
-    exists o o1, mget (run true mc_init es) id = Some o /\
-      mget (fst (step true (run true mc_init es) c (Commit id))) id = Some o1 /\
-      o_lineage o1 = o_lineage o /\ ~ extends (o_versions o) (o_versions o1).
-Proof. exact recreated_lineage_refuted. Qed.
-Print Assumptions C14_known_recreated_lineage_refuted.
+(** ** Interleavings in which commit metadata never repeats *)
 
-(** Non-vacuity. *)
+Theorem C14_reachable_invariant : forall dbg es,
+  run_fresh dbg mc_init es = true -> mc_inv (run dbg mc_init es).
+Proof. exact reachable_inv. Qed.
+Print Assumptions C14_reachable_invariant.
+
+Theorem C14_invariant_preserved : forall dbg es st,
+  mc_inv st -> run_fresh dbg st es = true -> mc_inv (run dbg st es).
+Proof. exact run_inv. Qed.
+Print Assumptions C14_invariant_preserved.
+
+(** a successful commit of a new version changes the main repository at that id only and
+    appends exactly one version: number = old head + 1, same width and configuration, state = the
+    client's staged head state, all earlier versions literally unchanged *)
+Theorem C14_commit_appends_exactly_next : forall dbg st c id m s st',
+  mc_inv st -> sget st c id = Some s -> vn_number (s_head s) <> 1 ->
+  step dbg st c (Commit id m) = (st', Ok tt) ->
+  exists o, mget st id = Some o /\
+    mget st' id = Some (mkObj (o_lineage o) (mkV (vn_number (o_head o) + 1) (vn_width (o_head o)))
+                              (o_versions o ++ [(m, s_state s)]) (o_cfg o)) /\
+    (forall id', id' <> id -> mget st' id' = mget st id') /\
+    sget st' c id = None /\
+    (forall c' id', (c', id') <> (c, id) -> sget st' c' id' = sget st c' id') /\
+    mc_next st' = mc_next st.
+Proof. exact commit_appends_exactly_next. Qed.
+Print Assumptions C14_commit_appends_exactly_next.
+
+(** every successful write_new_version was cloned from exactly the object now in the main
+    repository, so the new version's state is the previous head's state with the staged
+    changes applied *)
+Theorem C14_lineage_known_exact : forall dbg st c id m s o st',
+  mc_inv st -> sget st c id = Some s -> vn_number (s_head s) <> 1 -> mget st id = Some o ->
+  step dbg st c (Commit id m) = (st', Ok tt) ->
+  s_base s = Some (o_lineage o) /\ s_versions s = o_versions o /\
+  s_state s = apply_edits (s_edits s) (last_state (o_versions o)).
+Proof. exact lineage_known_exact. Qed.
+Print Assumptions C14_lineage_known_exact.
+
+(** the formerly known class (fix e1679ed): a staged copy cloned from another lineage of the id -
+    the object was purged and created again - is refused whatever the head numbers are *)
+Theorem C14_recreated_lineage_refused : forall dbg st c id m s o l,
+  mc_inv st -> sget st c id = Some s -> s_base s = Some l -> mget st id = Some o ->
+  l <> o_lineage o -> step dbg st c (Commit id m) = (st, Err).
+Proof. exact recreated_lineage_refused. Qed.
+Print Assumptions C14_recreated_lineage_refused.
+
+(** along any such run the version list of an object lineage only grows at its end; an object
+    found under another lineage was created after the run began *)
+Theorem C14_versions_append_only : forall dbg es st id o o1,
+  mc_inv st -> run_fresh dbg st es = true ->
+  mget st id = Some o -> mget (run dbg st es) id = Some o1 ->
+  (o_lineage o1 = o_lineage o -> extends_obj o o1) /\
+  (o_lineage o1 <> o_lineage o -> mc_next st <= o_lineage o1).
+Proof. exact versions_append_only. Qed.
+Print Assumptions C14_versions_append_only.
+
+(** after a successful commit of client [a], the commit of any other client [c] whose staged
+    copy existed before fails - whatever happens in between, whatever metadata [c] passes -
+    unless [c] resets, re-stages after a commit of its own, or the object is purged *)
+Theorem C14_no_silent_merge : forall dbg st a c id m sc st1 es m',
+  mc_inv st -> a <> c -> sget st c id = Some sc ->
+  step_fresh st a (Commit id m) = true -> step dbg st a (Commit id m) = (st1, Ok tt) ->
+  run_fresh dbg st1 es = true -> forallb (ev_keeps c id) es = true ->
+  step dbg (run dbg st1 es) c (Commit id m') = (run dbg st1 es, Err).
+Proof. exact no_silent_merge. Qed.
+Print Assumptions C14_no_silent_merge.
+
+(** Non-vacuity and the repaired classes on concrete interleavings. *)
+Example C14_recreated_lineage_now_refused :
+  let es := wit_base ++ wit_recreate 0 0 3 4 in
+  run_fresh true mc_init es = true /\
+  step true (run true mc_init es) 0 (Commit wit_id 5) = (run true mc_init es, Err).
+Proof. exact recreated_lineage_now_refused. Qed.
+
+Example C14_recreated_same_history_accepted :
+  let st := run true mc_init (wit_base ++ wit_recreate 0 0 1 2) in
+  run_fresh true mc_init (wit_base ++ wit_recreate 0 0 1 2) = false /\
+  snd (step true st 0 (Commit wit_id 5)) = Ok tt /\
+  exists o o1, mget st wit_id = Some o /\ mget (fst (step true st 0 (Commit wit_id 5))) wit_id = Some o1 /\
+    o_versions o1 = o_versions o ++ [(5, [(b "c.txt", 3); (b "b.txt", 2); (b "a.txt", 1)])] /\
+    o_head o1 = mkV 3 0 /\ o_cfg o1 = o_cfg o.
+Proof. exact recreated_same_history_accepted. Qed.
+
+Example C14_recreated_same_history_other_config_refused :
+  (let st := run true mc_init (wit_base ++ wit_recreate 2 0 1 2) in
+   step true st 0 (Commit wit_id 5) = (st, Err)) /\
+  (let st := run true mc_init (wit_base ++ wit_recreate 0 1 1 2) in
+   step true st 0 (Commit wit_id 5) = (st, Err)).
+Proof. exact recreated_same_history_other_config_refused. Qed.
+
 Example C14_race_exactly_one_wins :
   let st := run true mc_init race_prefix in
-  run_clean true mc_init (race_prefix ++ [(0, Commit wit_id); (1, Commit wit_id)]) = true /\
-  run_clean true mc_init (race_prefix ++ [(1, Commit wit_id); (0, Commit wit_id)]) = true /\
-  run_results true st [(0, Commit wit_id); (1, Commit wit_id)] = [Ok tt; Err] /\
-  run_results true st [(1, Commit wit_id); (0, Commit wit_id)] = [Ok tt; Err] /\
-  (exists o, mget (run true st [(0, Commit wit_id); (1, Commit wit_id)]) wit_id = Some o /\
+  run_fresh true mc_init (race_prefix ++ [(0, Commit wit_id 2); (1, Commit wit_id 3)]) = true /\
+  run_fresh true mc_init (race_prefix ++ [(1, Commit wit_id 2); (0, Commit wit_id 3)]) = true /\
+  run_results true st [(0, Commit wit_id 2); (1, Commit wit_id 3)] = [Ok tt; Err] /\
+  run_results true st [(1, Commit wit_id 2); (0, Commit wit_id 3)] = [Ok tt; Err] /\
+  (exists o, mget (run true st [(0, Commit wit_id 2); (1, Commit wit_id 3)]) wit_id = Some o /\
              vn_number (o_head o) = 2 /\ List.length (o_versions o) = 2%nat) /\
-  (exists s, sget (run true st [(0, Commit wit_id); (1, Commit wit_id)]) 1 wit_id = Some s /\
+  (exists s, sget (run true st [(0, Commit wit_id 2); (1, Commit wit_id 3)]) 1 wit_id = Some s /\
              s_state s = [(b "y.txt", 3); (b "a.txt", 1)]).
 Proof. exact race_exactly_one_wins. Qed.
 
 Example C14_width2_refuses_v10 :
   let st := run true mc_init width2_run in
-  run_clean true mc_init width2_run = true /\
+  run_fresh true mc_init width2_run = true /\
   (exists o, mget st wit_id = Some o /\ o_head o = mkV 9 2 /\ List.length (o_versions o) = 9%nat) /\
   step true st 1 (Stage wit_id (b "g.txt", Some 77)) = (st, Err) /\
   step false st 1 (Stage wit_id (b "g.txt", Some 77)) = (st, Err).
@@ -216,6 +282,6 @@ Proof. exact width2_refuses_v10. Qed.
 Example C14_commit_hypotheses_nonvacuous :
   let st := run true mc_init race_prefix in
   mc_inv st /\ (exists s, sget st 1 wit_id = Some s /\ vn_number (s_head s) <> 1) /\
-  c14_recreated_lineage st 1 wit_id = false /\
-  snd (step true st 1 (Commit wit_id)) = Ok tt.
+  step_fresh st 1 (Commit wit_id 9) = true /\
+  snd (step true st 1 (Commit wit_id 9)) = Ok tt.
 Proof. exact commit_nonvacuous. Qed.
